@@ -12,7 +12,7 @@ pub fn plan() -> Plan {
         meta: Meta {
             property: "C04",
             level: "exploration",
-            rule: "model differential on maintenance-heavy histories: data operations interleaved with try_close/try_create/try_restore_active_blob, the *_in_background variants (+ worker barrier), force_update_active_blob(pred true/false), free_excess_resources with and without waiting for the dump (dumps race with the following queries), offload_buffer(needed, level), fsyncdata, restarts. Each maintenance call's result is checked against the documented precondition (model), then the whole query surface (read, contains, read_all*, read_with) is compared for every key after every step, and the following writes/deletes must succeed and be visible. Filter group sizes {2,3,4,8}, both runtime flavours. Non-trivial = history with >=1 maintenance operation that ran >=3 steps; abstract states (active present, active index file, #closed, #closed with index file, filter off-loaded) visited are counted in observed.distinct_abstract_states.",
+            rule: "model differential on maintenance-heavy histories: data operations interleaved with try_close/try_create/try_restore_active_blob, the *_in_background variants (+ worker barrier), force_update_active_blob(pred true/false), free_excess_resources with and without waiting for the dump (dumps race with the following queries), offload_buffer(needed, level), fsyncdata, restarts. Each maintenance call's result is checked against the documented precondition (model), then the whole query surface (read, contains, read_all*, read_with) is compared for every key after every step, and the following writes/deletes must succeed and be visible. Filter group sizes {2,3,4,8}, both runtime flavours. A quarter of the random histories rotate automatically (record limit 1-4 or size limit 100-900 bytes with a 0 ms rotation debounce; every rotation the worker performs is mirrored into the model, a rotation below the limit is a mismatch); one in eight starts with 9-14 small blobs (two-digit blob ids, several filter levels); one in twelve starts with a fat blob of 70-140 records (multi-leaf on-disk index). Non-trivial = history with >=1 maintenance operation that ran >=3 steps; abstract states (active present, active index file, #closed, #closed with index file, filter off-loaded) visited are counted in observed.distinct_abstract_states.",
             assumptions: vec!["verdict holds for the executions produced by this seed only"],
         },
         shards: 16,
